@@ -16,7 +16,7 @@ from .. import core, terms as T, irspace, irtools, loopspace as LS
 
 LEVEL = 'model_checking'
 RULE = ('programs = terms over argument AND constant leaves (depth<=1 all constructors; depth 2 over the rewrite core + add/multiply/insertaxis), the '
-        'loop grammar and tuples; per program breadth-first search over event sequences {call(A0),call(A1),call(A2),scribble} to depth 4 with '
+        'loop grammar and tuples; per program breadth-first search over event sequences {call(A0),call(A1),call(A2),scribble} to depth 4 (thorough 5; quick: 3 for depth-2 terms, which use 6 of the 10 leaves, and for the adjacent-loop family) with '
         'deduplication on the hidden state of the compiled function; every transition is executed on the real function. non-trivial = distinct '
         '(program, state) pairs reached after at least one call in which the function holds cached intermediates or has returned a writable array')
 ASSUMPTIONS = ['a fresh evaluable.compile of the same expression is the specification of every call (differential) plus the numpy reference interpreter',
@@ -28,9 +28,11 @@ CM_LEAVES = [T.A('a', (2,)), T.A('A', (2, 2)), ('const', ((1., 2.), 'f')), ('con
              ('tofloat', (), ('range', (2,))), T.A('s', ()), T.A('b', (3,)), ('const', ((1., 2., 3.), 'f')),
              ('add', (), ('range', (2,)), T.A('i', (), 'i'))]   # run-time offset: Take(const, Range(2)+i) becomes a slice VIEW of a cached constant
 irspace.LEAFSETS['cm'] = CM_LEAVES
+irspace.LEAFSETS['cm-small'] = [CM_LEAVES[i] for i in (0, 1, 2, 3, 6, 9)]
 PROFILES = {
     'quick': [{'name': 'cm-d1', 'leaves': 'cm', 'consts': False, 'ops': 'all', 'depth': 1},
-              {'name': 'cm-d2', 'leaves': 'cm', 'consts': False, 'ops': sorted(set(T.CORE) | {'add', 'multiply', 'insertaxis', 'guard', 'exp'}), 'depth': 2}],
+              # depth 2 over 6 of the 10 leaves (arguments a, A, s, two constants, the run-time offset index)
+              {'name': 'cm-d2', 'leaves': 'cm-small', 'consts': False, 'ops': sorted(set(T.CORE) | {'add', 'multiply', 'insertaxis', 'guard', 'exp'}), 'depth': 2}],
     'thorough': [{'name': 'cm-d2', 'leaves': 'cm', 'consts': False, 'ops': 'all', 'depth': 2}],
 }
 NPARTS = {'quick': {1: 2, 2: 60}, 'thorough': {1: 4, 2: 400}}
@@ -39,7 +41,7 @@ EVENTS = ['c0', 'c1', 'c2', 's']
 
 
 def shards(tier, seed):
-    out = [{'kind': 'system'}, {'kind': 'basis'}]
+    out = [{'kind': 'system', 'case': i} for i in range(len(system_cases()))] + [{'kind': 'basis'}]
     n = len(LS.programs(tier))
     for lo in range(0, n, LOOP_CHUNK):
         out.append({'kind': 'loops', 'lo': lo, 'hi': min(n, lo + LOOP_CHUNK)})
@@ -309,6 +311,8 @@ def run_shard(spec, tier, seed):
     depth = DEPTH[tier]
     if spec['kind'] in ('system', 'basis'):
         cases, chk = (system_cases(), check_system) if spec['kind'] == 'system' else (basis_cases(), check_basis)
+        if 'case' in spec:
+            cases = cases[spec['case']:spec['case'] + 1]
         for c in cases:
             res.count('programs')
             try:
@@ -328,11 +332,12 @@ def run_shard(spec, tier, seed):
     last = None
     if spec['kind'] == 'loops':
         for fam, prog in LS.programs(tier)[spec['lo']:spec['hi']]:
-            _one(prog, depth, res)
+            # quick: call/scribble histories of length 4 for single loops, nested loops and tuples, 3 for the 2.7 k adjacent-loop programs
+            _one(prog, depth - 1 if tier == 'quick' and fam == 'p3' else depth, res)
             last = prog
     else:
         for term in irspace.shard_terms(spec['profile'], spec['level'], spec['part'], spec['nparts']):
-            _one(term, depth, res)
+            _one(term, depth - 1 if tier == 'quick' and spec['level'] == 2 else depth, res)
             last = term
     if last is not None and spec.get('part', 0) == 0:
         res.sample({'program': LS.show(last), 'events': EVENTS, 'depth': depth})
